@@ -487,7 +487,7 @@ func labDoc(e labEnv) {
 	must(err)
 	n := 700
 	if e.thorough() {
-		n = 7000
+		n = 30000
 	}
 	tags := map[string]int{}
 	for i := 0; i < n; i++ {
